@@ -359,11 +359,32 @@ const VALUES: [&str; 8] = [
     "val-imp{k} Imp-Type ::= 7",
 ];
 
+/// the notation of the case; a top-level ENUMERATED gets, depending on its number, a comment behind every
+/// enumeral (the lexer keeps those as descriptions and the backend prints them behind the member): to the end
+/// of the line, or a block comment spanning several lines with braces, quotes and commas in it
+fn commented(c: &Case) -> String {
+    let n: usize = c.name.chars().filter(|ch| ch.is_ascii_digit()).collect::<String>().parse().unwrap_or(0);
+    match (&c.ty, n % 3) {
+        (Ty::Enum { root, marker, adds }, style) if style > 0 => {
+            let note = |i: usize| if style == 1 { format!(" -- note {i}\n") } else { format!(" /* note {i}\n }} stays = \"q\", {{ here\n*/ ") };
+            let mut parts: Vec<String> = root.clone();
+            if *marker {
+                parts.push("...".into());
+            }
+            parts.extend(adds.iter().cloned());
+            let last = parts.len().saturating_sub(1);
+            let body: String = parts.iter().enumerate().map(|(i, p)| if i < last { format!("{p},{}", note(i)) } else { format!("{p}{}", note(i)) }).collect();
+            format!("ENUMERATED {{ {body} }}")
+        }
+        _ => c.ty.asn(),
+    }
+}
+
 fn module_text(cases: &[Case], k: usize, with_values: bool) -> Vec<String> {
     let mut s = String::from("Ts-Mod-A DEFINITIONS AUTOMATIC TAGS ::= BEGIN\nIMPORTS Imp-Type, imp-val, E164, X-509, T1 FROM Ts-Mod-B;\n");
     s.push_str(BASE_DEFS);
     for c in cases {
-        s.push_str(&format!("{} ::= {}\n", c.name, c.ty.asn()));
+        s.push_str(&format!("{} ::= {}\n", c.name, commented(c)));
     }
     if with_values {
         for v in VALUES {
@@ -421,7 +442,7 @@ fn case_json(c: &Case) -> Value {
 pub fn run(cfg: &RunCfg) -> Report {
     let mut rep = Report::new(
         "C18",
-        "type assignments of the supported-notation generator (every built-in type, SEQUENCE / SET with extension markers, additions and version groups, CHOICE, ENUMERATED, SEQUENCE OF / SET OF of anything incl. inline CHOICE / ENUMERATED, anonymous nesting to depth 4, references incl. to an imported type, top-level primitives and aliases) in a two-module set with IMPORTS and value assignments (strings containing quotes, braces and brackets). The TypeScript output is parsed by a structural parser (namespaces, imports, `export type`, `export enum`, `export const`; it fails on unbalanced delimiters or trailing text). Model tie: parse tree of each declaration = modelDecl(source). Oracle: = specDecl(source) (JER shape); exactly one exported declaration per type assignment under the mangled name inside the module's namespace; every mentioned type name declared in the namespace, imported or built-in",
+        "type assignments of the supported-notation generator (every built-in type, SEQUENCE / SET with extension markers, additions and version groups, CHOICE, ENUMERATED, SEQUENCE OF / SET OF of anything incl. inline CHOICE / ENUMERATED, anonymous nesting to depth 4, references incl. to an imported type, top-level primitives and aliases; top-level ENUMERATEDs also with line / multi-line block comments behind their enumerals) in a two-module set with IMPORTS and value assignments (strings containing quotes, braces and brackets). The TypeScript output is parsed by a structural parser (namespaces, imports, `export type`, `export enum`, `export const`; it fails on unbalanced delimiters or trailing text). Model tie: parse tree of each declaration = modelDecl(source). Oracle: = specDecl(source) (JER shape); exactly one exported declaration per type assignment under the mangled name inside the module's namespace; every mentioned type name declared in the namespace, imported or built-in",
     );
     let cases: Vec<Case> = if let Some(r) = &cfg.replay {
         let r = r.get("case").unwrap_or(r);
